@@ -14,7 +14,7 @@ pub fn opt_spec(p_each: f64) -> impl Strategy<Value = OptSpec> {
     (
         proptest::option::weighted(p, prop_oneof![Just(0u32), 1u32..=4, Just(7u32)]),
         proptest::option::weighted(p, prop_oneof![Just(0u32), 1u32..=3]),
-        proptest::option::weighted(p, proptest::collection::vec(prop_oneof![Just(0usize), 1usize..=3, Just(2usize)], 0..=3)),
+        proptest::option::weighted(p, proptest::collection::vec(prop_oneof![3 => Just(0usize), 6 => 1usize..=3, 2 => Just(2usize), 2 => Just(twinref::available_parallelism()), 1 => Just(twinref::available_parallelism().saturating_sub(1).max(1))], 0..=3)),
         proptest::array::uniform4(proptest::option::weighted(p, 0u64..=5000)),
         proptest::option::weighted(p / 2.0, prop_oneof![Just(0u64), 1u64..=1000]),
         proptest::option::weighted(p / 2.0, prop_oneof![1u64..=1_000_000, Just(1_000_000_000u64)]),
